@@ -49,6 +49,10 @@ func buildGin(cs *caseState, sp godi.Provider) http.Handler {
 	if o.Recovery {
 		ho = append(ho, godigin.WithPanicRecovery(true))
 	}
+	if o.HandleH == "nil-option" {
+		// gin's HandlerConfig documents each of the three: "If nil, a default handler returning 500 ... is used"
+		ho = append(ho, godigin.WithPanicHandler(nil), godigin.WithScopeErrorHandler(nil), godigin.WithResolutionErrorHandler(nil))
+	}
 	if o.HandleH == "custom" {
 		ho = append(ho,
 			godigin.WithPanicHandler(func(c *gin.Context, v any) { look(c).onPanicH(); c.AbortWithStatus(stPanicH) }),
